@@ -1,6 +1,10 @@
 import VlsModel.Model.Enforcement
 import VlsModel.Gen.FnEnforce
 import VlsModel.Lemmas.FnGen
+import VlsModel.Lemmas.EnforcementFn
+import VlsModel.Lemmas.SecretsFn
+import VlsModel.Lemmas.SecretsSound
+import VlsModel.Props.C03
 /-
 C03 — the enforcement-state updates and selectors that the hand-written model `Model/Enforcement.lean` inlines
 in `signCp`, `revokeCp`, `revoke` and `prevPoint`, proved equal to the bodies of
@@ -8,10 +12,8 @@ in `signCp`, `revokeCp`, `revoke` and `prevPoint`, proved equal to the bodies of
 get_previous_counterparty_commit_info, set_next_counterparty_revoke_num}` that `translate/rs2lean.py` regenerates
 from `vls-core/src/policy/validator.rs` (`Gen/FnEnforce.lean`) on every run.
 
-`toES` reads a model channel as the nine translated fields of `EnforcementState`; the opaque Rust types
-(`PublicKey`, `CommitmentInfo2`, `CommitmentSignatures`) are instantiated with the model's identifiers (`Nat`).
-The model keeps one field `cur` for `current_holder_commit_info` + `current_counterparty_signatures` (they are
-always written together), so `toES` copies it into both.
+`toES` (now in `Lemmas/EnforcementFn.lean`, shared with `C01Fn.lean` / `C02Fn.lean`) reads a model channel as the
+nine translated fields of `EnforcementState`.
 
 Each theorem is stated under exactly the guard under which the model performs the update (the guards are the
 `Validator::set_next_*` checks that precede the call), plus the 64-bit range of the counters; the companion
@@ -19,16 +21,8 @@ Each theorem is stated under exactly the guard under which the model performs th
 -/
 namespace VlsModel.Props.C03Fn
 open VlsModel VlsModel.Enforcement
-open VlsModel.Gen.FnEnforce (EnforcementState)
-
-abbrev ES := EnforcementState Nat Nat Nat
-
-def toES (c : Chan) : ES :=
-  { next_holder_commit_num := c.next, next_counterparty_commit_num := c.cpCommit,
-    next_counterparty_revoke_num := c.cpRevoke, current_counterparty_point := c.curPt,
-    previous_counterparty_point := c.prevPt, current_holder_commit_info := c.cur,
-    current_counterparty_signatures := c.cur, current_counterparty_commit_info := c.curInfo,
-    previous_counterparty_commit_info := c.prevInfo }
+open VlsModel.Gen.FnEnforce
+open VlsModel.Lemmas.EnforcementFn
 
 /-- `advance_holder_commitment_state` in `revoke`: `set_next_holder_commit_num(next + 1, info, sigs)` -/
 theorem C03_fn_set_next_holder_commit_num (c : Chan) (info : Nat) (h : c.next + 1 ≤ Rs.U64_MAX) :
@@ -97,5 +91,522 @@ theorem C03_fn_set_next_counterparty_revoke_num (c : Chan) (num : Nat) (h0 : num
 theorem C03_fn_set_next_counterparty_revoke_num_panic (c : Chan) :
     (toES c).set_next_counterparty_revoke_num 0 = .error .panic := by
   simp [EnforcementState.set_next_counterparty_revoke_num, Rs.assert, Rs.panic, bind, Except.bind]
+
+/-! ### the guards in front of the setters: default methods of `trait Validator` (validator.rs:301 / :342) -/
+
+/-- `Validator::set_next_counterparty_commit_num(n + 1, pt, info)` with the tags kept errors is, on every input in
+    the 64-bit range, the decision list that the model's `signCp` inlines after the `SimpleValidator` checks:
+    window relative to the revocation counter (`delta` = 1 for the initial commitment, else 2), progression
+    `num ∈ {current, current + 1}`, then the setter (progression moves current to previous, a retry moves nothing) -/
+theorem C03_fn_validator_set_next_counterparty_commit_num (f : String → Bool)
+    (hf : f "policy-commitment-previous-revoked" = true) (c : Chan) (n pt info : Nat)
+    (hr : c.cpRevoke + 2 ≤ Rs.U64_MAX) (hc : c.cpCommit + 1 ≤ Rs.U64_MAX) :
+    Validator.set_next_counterparty_commit_num f () (toES c) (n + 1) pt info
+      = if n + 1 < c.cpRevoke + (if n + 1 = 1 then 1 else 2) then .error (.err "policy-commitment-previous-revoked")
+        else if n + 1 ≠ c.cpCommit ∧ n + 1 ≠ c.cpCommit + 1 then .error (.err "policy-commitment-previous-revoked")
+        else if n + 1 = c.cpCommit + 1 then
+          .ok (toES { c with prevPt := c.curPt, prevInfo := c.curInfo, curPt := some pt, curInfo := some info,
+                             cpCommit := n + 1 })
+        else .ok (toES c) := by
+  obtain ⟨slot, next, cur, nextInfo, closed, m, r, curPt, prevPt, curInfo, prevInfo, secrets⟩ := c
+  simp only [Rs.U64_MAX] at hr hc ⊢
+  have hr1 : r + 1 ≤ 18446744073709551615 := by omega
+  have hm0 : m ≤ 18446744073709551615 := by omega
+  unfold Validator.set_next_counterparty_commit_num EnforcementState.set_next_counterparty_commit_num
+  simp only [toES, policyErr_keep f _ hf, Rs.uadd, Rs.U64_MAX, Rs.assert]
+  by_cases h1 : n = 0
+  · subst h1
+    by_cases a : r = 0
+    · subst a
+      by_cases b : m = 1
+      · subst b; simp
+      · by_cases b' : m = 0
+        · subst b'; simp
+        · have b1 : ¬ 1 = m := fun h => b h.symm
+          have b2 : ¬ 1 = m + 1 := by omega
+          simp [b, b', b1, b2, hc]
+    · have a' : 1 < r + 1 := by omega
+      simp [a', hr1]
+  · have h1' : ¬ n + 1 = 1 := by omega
+    simp only [h1', if_false]
+    by_cases a : n + 1 < r + 2
+    · simp [a, hr, h1]
+    · by_cases b : n + 1 = m
+      · subst b
+        have b2 : ¬ n + 1 = n + 1 + 1 := by omega
+        have c1 : ¬ n + 1 < n := by omega
+        have c2 : ¬ n + 1 ≤ n := by omega
+        simp [a, hr, hc, h1, hm0, c1, c2]
+      · by_cases b' : n = m
+        · subst b'
+          simp [a, hr, hc, h1, hm0]
+        · have b2 : ¬ n + 1 = m + 1 := by omega
+          simp [a, b, b', b2, hr, hc, h1, hm0]
+
+/-- the model's `signCp` after the `SimpleValidator::validate_counterparty_commitment_tx` checks IS this call:
+    same result class, and on success the model's new state read as an `EnforcementState` is the generated one -/
+theorem C03_fn_signCp_tail (c : Chan) (n pt info : Nat)
+    (hr : c.cpRevoke + 2 ≤ Rs.U64_MAX) (hc : c.cpCommit + 1 ≤ Rs.U64_MAX)
+    (h0 : ¬ n > c.cpRevoke + 1) (h1 : ¬ (n + 1 = c.cpCommit ∧ c.curPt ≠ some pt))
+    (h2 : ¬ (n + 1 = c.cpCommit ∧ c.curInfo ≠ some info)) :
+    (signCp c n pt info true).out.res
+        = cls (Validator.set_next_counterparty_commit_num strict () (toES c) (n + 1) pt info)
+    ∧ (∀ e, Validator.set_next_counterparty_commit_num strict () (toES c) (n + 1) pt info = .ok e →
+          toES (signCp c n pt info true).c = e)
+    ∧ ((signCp c n pt info true).out.res ≠ .ok → (signCp c n pt info true).c = c) := by
+  rw [C03_fn_validator_set_next_counterparty_commit_num strict rfl c n pt info hr hc]
+  unfold signCp
+  simp only [Bool.not_true, Bool.false_eq_true, if_false, h0, h1, h2]
+  by_cases a : n + 1 < c.cpRevoke + (if n + 1 = 1 then 1 else 2)
+  · simp only [if_pos a, fail, cls_err]; simp
+  · simp only [if_neg a]
+    by_cases b : n + 1 ≠ c.cpCommit ∧ n + 1 ≠ c.cpCommit + 1
+    · simp only [if_pos b, fail, cls_err]; simp
+    · simp only [if_neg b]
+      by_cases d : n + 1 = c.cpCommit + 1
+      · simp only [if_pos d, cls_ok]; simp
+      · simp only [if_neg d, cls_ok]; simp
+
+/-- `Validator::set_next_counterparty_revoke_num(n + 1)` with the tags kept errors is the decision list that the
+    model's `revokeCp` inlines after the secret-store step: not too small / not too large relative to the signing
+    counter, progression `num ∈ {current, current + 1}`, then the setter -/
+theorem C03_fn_validator_set_next_counterparty_revoke_num (f : String → Bool)
+    (hf : f "policy-commitment-previous-revoked" = true) (c : Chan) (n : Nat)
+    (hn : n + 3 ≤ Rs.U64_MAX) (hr : c.cpRevoke + 1 ≤ Rs.U64_MAX) :
+    Validator.set_next_counterparty_revoke_num f () (toES c) (n + 1)
+      = if n + 1 + 2 < c.cpCommit then .error (.err "policy-commitment-previous-revoked")
+        else if n + 1 + 1 > c.cpCommit then .error (.err "policy-commitment-previous-revoked")
+        else if n + 1 ≠ c.cpRevoke ∧ n + 1 ≠ c.cpRevoke + 1 then .error (.err "policy-commitment-previous-revoked")
+        else .ok (toES { c with prevInfo := if n + 1 + 1 ≥ c.cpCommit then none else c.prevInfo,
+                                cpRevoke := n + 1 }) := by
+  obtain ⟨slot, next, cur, nextInfo, closed, m, r, curPt, prevPt, curInfo, prevInfo, secrets⟩ := c
+  simp only [Rs.U64_MAX] at hn hr ⊢
+  have hn2 : n + 1 + 2 ≤ 18446744073709551615 := by omega
+  have hn1 : n + 1 + 1 ≤ 18446744073709551615 := by omega
+  unfold Validator.set_next_counterparty_revoke_num EnforcementState.set_next_counterparty_revoke_num
+  simp only [toES, policyErr_keep f _ hf, Rs.uadd, Rs.U64_MAX, Rs.assert]
+  by_cases a : n + 1 + 2 < m
+  · simp [a, hn2]
+  · by_cases b : n + 1 + 1 > m
+    · have b' : m < n + 1 + 1 := b
+      simp [a, b, b', hn2, hn1]
+    · have b' : ¬ m < n + 1 + 1 := b
+      by_cases d1 : n + 1 = r
+      · subst d1
+        by_cases e : m ≤ n + 1 + 1
+        · have e' : n + 1 + 1 ≥ m := e
+          simp [a, b, b', hn2, hn1, hr, e, e']
+        · have e' : ¬ n + 1 + 1 ≥ m := e
+          simp [a, b, b', hn2, hn1, hr, e, e']
+      · by_cases d2 : n = r
+        · subst d2
+          by_cases e : m ≤ n + 1 + 1
+          · have e' : n + 1 + 1 ≥ m := e
+            simp [a, b, b', hn2, hn1, hr, e, e']
+          · have e' : ¬ n + 1 + 1 ≥ m := e
+            simp [a, b, b', hn2, hn1, hr, e, e']
+        · have d3 : ¬ n + 1 = r + 1 := by omega
+          simp [a, b, b', d1, d2, d3, hn2, hn1, hr]
+
+/-- whatever the policy filter, the two `assert`s of the setters stand behind the guards: `num = 0` never returns
+    a state (a demoted `policy-other` only turns the refusal into a panic) -/
+theorem C03_fn_validator_zero_never_ok (f : String → Bool) (c : Chan) (pt info : Nat) (e : ES) :
+    Validator.set_next_counterparty_revoke_num f () (toES c) 0 ≠ .ok e
+    ∧ Validator.set_next_counterparty_commit_num f () (toES c) 0 pt info ≠ .ok e := by
+  constructor
+  · intro h
+    unfold Validator.set_next_counterparty_revoke_num EnforcementState.set_next_counterparty_revoke_num at h
+    cases hf : f "policy-other"
+    · cases hf2 : f "policy-commitment-previous-revoked" <;>
+        simp [Rs.policyErr, Rs.fail, hf, hf2, Rs.uadd, Rs.U64_MAX, Rs.assert, Rs.panic, toES, bind, Except.bind,
+              pure, Except.pure] at h <;> (repeat (split at h <;> try cases h))
+    · simp [Rs.policyErr, Rs.fail, hf, bind, Except.bind] at h
+  · intro h
+    unfold Validator.set_next_counterparty_commit_num EnforcementState.set_next_counterparty_commit_num at h
+    cases hf : f "policy-other"
+    · cases hf2 : f "policy-commitment-previous-revoked" <;>
+        simp [Rs.policyErr, Rs.fail, hf, hf2, Rs.uadd, Rs.assert, Rs.panic, toES, bind, Except.bind,
+              pure, Except.pure] at h <;> (repeat (split at h <;> try cases h))
+    · simp [Rs.policyErr, Rs.fail, hf, bind, Except.bind] at h
+
+-- non-vacuity: commit 4 / revoke 2 (two unrevoked commitments 2 and 3)
+example : Validator.set_next_counterparty_commit_num strict ()
+    (toES { slot := .ready, cpCommit := 4, cpRevoke := 2, curPt := some 13, prevPt := some 12 }) 6 14 1
+    = .error (.err "policy-commitment-previous-revoked") := by
+  simp [Validator.set_next_counterparty_commit_num, toES, Rs.uadd, Rs.U64_MAX, policyErr_strict]
+example : Validator.set_next_counterparty_revoke_num strict ()
+    (toES { slot := .ready, cpCommit := 4, cpRevoke := 2, curPt := some 13, prevPt := some 12 }) 3
+    = .ok (toES { slot := .ready, cpCommit := 4, cpRevoke := 3, curPt := some 13, prevPt := some 12 }) := by rfl
+example : Validator.set_next_counterparty_commit_num strict ()
+    (toES { slot := .ready, cpCommit := 4, cpRevoke := 3, curPt := some 13, prevPt := some 12 }) 5 14 1
+    = .ok (toES { slot := .ready, cpCommit := 5, cpRevoke := 3, curPt := some 14, prevPt := some 13,
+                  curInfo := some 1 }) := by rfl
+
+/-! ### the compact secret store `CounterpartyCommitmentSecrets` (validator.rs:571-660), generated: `Gen/FnSecrets.lean`
+
+The hand-written generic store `Model/Secrets.lean` (for which `Secrets_store_sound`, `Secrets_store_complete`,
+`Secrets_size`, `C03_chain` are proved for every derivation step) instantiated with byte lists and the step
+`stepN h tb` = "flip the bit, then the external hash" IS the generated code, function by function. -/
+section Secrets
+open VlsModel.Secrets VlsModel.Lemmas.SecretsFn
+open VlsModel.Gen.FnSecrets (CounterpartyCommitmentSecrets)
+
+theorem C03_fn_secrets_new : CounterpartyCommitmentSecrets.new = { old_secrets := ([] : Store (List Nat)) } := rfl
+
+/-- `place_secret` = number of trailing zero bits capped at 48 (`Secrets.place`); never fails -/
+theorem C03_fn_place_secret (idx : Nat) :
+    CounterpartyCommitmentSecrets.place_secret idx = .ok (place idx) := by
+  have e : CounterpartyCommitmentSecrets.place_secret idx
+      = (Rs.loopM (ρ := Nat) (Rs.range 0 48) () (placeStep idx) >>= fun lr =>
+          match lr with | .inl () => pure 48 | .inr rv => pure rv) := rfl
+  rw [e, range_zero, place_loop idx 48 0 (by omega)]
+  unfold place
+  rw [placeFrom_eq]
+  cases firstBit idx 0 48 <;> rfl
+
+/-- `get_min_seen_secret` = `Secrets.minSeen` (the start value `1 << 48` is the generated constant `N48`) -/
+theorem C03_fn_get_min_seen_secret (st : Store (List Nat)) :
+    CounterpartyCommitmentSecrets.get_min_seen_secret { old_secrets := st } = .ok (minSeen st) := by
+  unfold CounterpartyCommitmentSecrets.get_min_seen_secret minSeen
+  rw [shl_one 48 (by omega), ← pow48]
+  simp only [Rs.bind_ok]
+  generalize (2 : Nat) ^ 48 = m
+  induction st generalizing m with
+  | nil => simp
+  | cons x xs ih =>
+    obtain ⟨s, i⟩ := x
+    simp only [List.foldlM_cons, List.foldl_cons, Rs.bind_ok, Rs.pure_eq]
+    by_cases c : i < m
+    · simpa [c] using ih i
+    · simpa [c] using ih m
+
+/-- `derive_secret(secret, bits, idx)` on a 32-byte secret with `bits ≤ 64` (callers pass a slot number ≤ 48) never
+    fails and is `Secrets.derive` over the step "flip the bit, hash" -/
+theorem C03_fn_derive_secret {H : Type} (h : List Nat → H) (tb : H → List Nat) (hh : ∀ l, (tb (h l)).length = 32)
+    (s : List Nat) (bits idx : Nat) (hs : s.length = 32) (hb : bits ≤ 64) :
+    CounterpartyCommitmentSecrets.derive_secret h tb s bits idx = .ok (derive (stepN h tb) s bits idx) :=
+  derive_secret_eq h tb hh s bits idx hs hb
+
+/-- **`provide_secret`** = `Secrets.provide` on every store, index and 32-byte secret: `Err(())` exactly when the model
+    refuses (slot beyond the store, or a lower slot is not derivable from the new secret), otherwise the model's store -/
+theorem C03_fn_provide_secret {H : Type} (h : List Nat → H) (tb : H → List Nat) (hh : ∀ l, (tb (h l)).length = 32)
+    (st : Store (List Nat)) (idx : Nat) (secret : List Nat) (hs : secret.length = 32) :
+    CounterpartyCommitmentSecrets.provide_secret h tb { old_secrets := st } idx secret
+      = match provide (stepN h tb) st idx secret with
+        | some st' => .ok { old_secrets := st' }
+        | none => .error (.err "()") := by
+  have hp : place idx ≤ 48 := place_le idx
+  unfold CounterpartyCommitmentSecrets.provide_secret provide
+  rw [C03_fn_place_secret]
+  simp only [Rs.bind_ok]
+  by_cases a : place idx > st.length
+  · simp [a, Rs.fail]
+  · simp only [a, decide_false, Bool.false_eq_true, if_false]
+    rw [range_zero, loop_check st (fun e => decide (derive (stepN h tb) secret (place idx) e.2 = e.1)) "()"
+          (place idx) 0 _ ?hf (by omega)]
+    case hf =>
+      intro i hi
+      have hidx : st[i]? = some st[i] := List.getElem?_eq_getElem hi
+      rcases hx : st[i] with ⟨os, oi⟩
+      simp only [Rs.index, hidx, hx, Rs.bind_ok, Rs.pure_eq,
+        derive_secret_eq h tb hh secret (place idx) oi hs (by omega)]
+      by_cases c : derive (stepN h tb) secret (place idx) oi = os
+      · simp [c]
+      · simp [c, Rs.fail]
+    rw [List.drop_zero, ← checkLower_eq_allFrom]
+    by_cases c : checkLower (stepN h tb) secret (place idx) st (place idx) = true
+    · simp only [c, if_true, Rs.bind_ok, C03_fn_get_min_seen_secret, Bool.not_true, Bool.false_eq_true, if_false]
+      by_cases d : minSeen st ≤ idx
+      · simp [d]
+      · by_cases e : place idx < st.length
+        · simp [d, e, Rs.setIndex]
+        · simp [d, e]
+    · simp [c]
+
+/-- **`get_secret`** = `Secrets.get` (a store of at most 64 entries — `Secrets_size`: at most 49 — whose secrets have 32
+    bytes, a `u64` index): the derived secret, `None`, or the `assert!` panic -/
+theorem C03_fn_get_secret {H : Type} (h : List Nat → H) (tb : H → List Nat) (hh : ∀ l, (tb (h l)).length = 32)
+    (st : Store (List Nat)) (idx : Nat) (hidx : idx < 2 ^ 64) (hlen : st.length ≤ 64)
+    (hall : ∀ e ∈ st, e.1.length = 32) :
+    CounterpartyCommitmentSecrets.get_secret h tb { old_secrets := st } idx
+      = match Secrets.get (stepN h tb) st idx with
+        | .some s => .ok (some s)
+        | .none => .ok none
+        | .panic => .error .panic := by
+  unfold CounterpartyCommitmentSecrets.get_secret Secrets.get
+  rw [range_zero, loop_find st (fun i e => decide (hi i idx = e.2))
+        (fun i e => some (derive (stepN h tb) e.1 i idx)) st.length 0 _ ?hf (by omega)]
+  case hf =>
+    intro i hlt
+    have hi64 : i < 64 := by omega
+    have hidx' : st[i]? = some st[i] := List.getElem?_eq_getElem hlt
+    have hmem : st[i] ∈ st := List.getElem_mem hlt
+    have hl := hall _ hmem
+    have hpos : 1 ≤ 2 ^ i := Nat.one_le_two_pow
+    have hsub : Rs.usub (2 ^ i) 1 = .ok (2 ^ i - 1) := by simp [Rs.usub, hpos]
+    have htr : Rs.utrunc Rs.U8_MAX i = i := by
+      unfold Rs.utrunc Rs.U8_MAX
+      exact Nat.mod_eq_of_lt (by omega)
+    simp only [shl_one i hi64, Rs.bind_ok, hsub, Rs.index, hidx', Rs.pure_eq, hi_eq idx i hidx hi64, htr,
+      derive_secret_eq h tb hh st[i].1 i idx hl (by omega)]
+    by_cases c : hi i idx = st[i].2
+    · simp [c]
+    · simp [c]
+  rw [List.drop_zero, findFrom_some, ← getFrom_eq_findFrom]
+  cases hg : getFrom (stepN h tb) idx st 0 with
+  | some s => simp
+  | none =>
+    simp only [Option.map_none, Rs.bind_ok, C03_fn_get_min_seen_secret]
+    by_cases d : idx < minSeen st
+    · simp [d, Rs.assert]
+    · simp [d, Rs.assert, Rs.panic]
+
+/-! #### store soundness of the GENERATED code
+
+`Secrets_store_sound` is proved for every derivation step; with the ties above it transfers to the generated bodies: feed
+the generated `provide_secret` the secrets of consecutive descending indices from 2^48−1 (what `validate_counterparty_revocation`
+does), all accepted — then the generated `get_secret` returns every one of them, whatever the hash function is. -/
+
+/-- the generated `provide_secret` applied to `ss` at the indices `m − 1, m − 2, …` -/
+def genProvideDesc {H : Type} (h : List Nat → H) (tb : H → List Nat) :
+    CounterpartyCommitmentSecrets → Nat → List (List Nat) → Rs.M CounterpartyCommitmentSecrets
+  | st, _, [] => .ok st
+  | _, 0, _ :: _ => .error (.err "()")
+  | st, m + 1, s :: rest =>
+    match CounterpartyCommitmentSecrets.provide_secret h tb st m s with
+    | .ok st' => genProvideDesc h tb st' m rest
+    | .error e => .error e
+
+/-- invariant of the stores the generated code builds from 32-byte secrets -/
+def GoodStore (st : Store (List Nat)) : Prop := st.length ≤ 49 ∧ ∀ e ∈ st, e.1.length = 32
+
+theorem goodStore_provide {H : Type} (h : List Nat → H) (tb : H → List Nat) {st st' : Store (List Nat)} {idx : Nat}
+    {secret : List Nat} (hg : GoodStore st) (hs : secret.length = 32)
+    (hp : provide (stepN h tb) st idx secret = some st') : GoodStore st' := by
+  refine ⟨provide_length _ hp hg.1, ?_⟩
+  obtain ⟨_, _, h3⟩ := provide_some _ hp
+  rcases h3 with rfl | ⟨_, rfl⟩ | ⟨_, rfl⟩
+  · exact hg.2
+  · intro e he
+    rcases List.mem_or_eq_of_mem_set he with he | rfl
+    · exact hg.2 e he
+    · exact hs
+  · intro e he
+    rcases List.mem_append.mp he with he | he
+    · exact hg.2 e he
+    · simp at he; subst he; exact hs
+
+theorem genProvideDesc_eq {H : Type} (h : List Nat → H) (tb : H → List Nat) (hh : ∀ l, (tb (h l)).length = 32) :
+    ∀ (ss : List (List Nat)) (m : Nat) (st : Store (List Nat)), (∀ s ∈ ss, s.length = 32) →
+      genProvideDesc h tb { old_secrets := st } m ss
+        = match provideDesc (stepN h tb) st m ss with
+          | some st' => .ok { old_secrets := st' }
+          | none => .error (.err "()")
+  | [], m, st, _ => by simp [genProvideDesc, provideDesc]
+  | s :: rest, 0, st, _ => by simp [genProvideDesc, provideDesc]
+  | s :: rest, m + 1, st, hs => by
+    have h32 : s.length = 32 := hs s (by simp)
+    simp only [genProvideDesc, provideDesc, C03_fn_provide_secret h tb hh st m s h32]
+    cases provide (stepN h tb) st m s with
+    | none => rfl
+    | some st1 =>
+      simp only
+      exact genProvideDesc_eq h tb hh rest m st1 (fun x hx => hs x (by simp [hx]))
+
+theorem goodStore_provideDesc {H : Type} (h : List Nat → H) (tb : H → List Nat) :
+    ∀ (ss : List (List Nat)) (m : Nat) (st st' : Store (List Nat)), GoodStore st → (∀ s ∈ ss, s.length = 32) →
+      provideDesc (stepN h tb) st m ss = some st' → GoodStore st'
+  | [], m, st, st', hg, _, hp => by simp [provideDesc] at hp; subst hp; exact hg
+  | s :: rest, 0, st, st', _, _, hp => by simp [provideDesc] at hp
+  | s :: rest, m + 1, st, st', hg, hs, hp => by
+    simp only [provideDesc] at hp
+    cases hq : provide (stepN h tb) st m s with
+    | none => simp [hq] at hp
+    | some st1 =>
+      simp only [hq] at hp
+      exact goodStore_provideDesc h tb rest m st1 st' (goodStore_provide h tb hg (hs s (by simp)) hq)
+        (fun x hx => hs x (by simp [hx])) hp
+
+/-- **store soundness of the generated code**, for every hash function returning 32 bytes -/
+theorem C03_fn_store_sound {H : Type} (h : List Nat → H) (tb : H → List Nat) (hh : ∀ l, (tb (h l)).length = 32)
+    (ss : List (List Nat)) (hs : ∀ s ∈ ss, s.length = 32) (st' : CounterpartyCommitmentSecrets)
+    (hrun : genProvideDesc h tb CounterpartyCommitmentSecrets.new N48 ss = .ok st') (k : Nat) (hk : k < ss.length) :
+    CounterpartyCommitmentSecrets.get_secret h tb st' (N48 - 1 - k) = .ok (some ss[k]) := by
+  rw [C03_fn_secrets_new, genProvideDesc_eq h tb hh ss N48 [] hs] at hrun
+  cases hp : provideDesc (stepN h tb) [] N48 ss with
+  | none => simp [hp] at hrun
+  | some st1 =>
+    simp only [hp] at hrun
+    have hst : st' = { old_secrets := st1 } := (Except.ok.inj hrun).symm
+    subst hst
+    have hg : GoodStore st1 := goodStore_provideDesc h tb ss N48 [] st1 ⟨by simp, by simp⟩ hs hp
+    have hsound := VlsModel.Props.C03.Secrets_store_sound (stepN h tb) ss st1 hp k hk
+    have hidx : N48 - 1 - k < 2 ^ 64 := by
+      have : N48 = 281474976710656 := by decide
+      omega
+    rw [C03_fn_get_secret h tb hh st1 (N48 - 1 - k) hidx (by have := hg.1; omega) hg.2, hsound]
+
+-- non-vacuity: slot of index 8 is 3; a two-entry store; a constant 32-byte "hash"
+example : CounterpartyCommitmentSecrets.place_secret 8 = .ok 3 := by
+  rw [C03_fn_place_secret]; exact congrArg _ (by decide)
+example : CounterpartyCommitmentSecrets.get_min_seen_secret { old_secrets := [([1], 40), ([2], 12)] } = .ok 12 := by
+  rw [C03_fn_get_min_seen_secret]; exact congrArg _ (by decide)
+example : ∃ st', genProvideDesc (fun l => l) (fun _ => List.replicate 32 0) CounterpartyCommitmentSecrets.new N48
+    [List.replicate 32 7] = .ok st' ∧ st'.old_secrets.length = 1 := by
+  refine ⟨{ old_secrets := [(List.replicate 32 7, N48 - 1)] }, ?_, rfl⟩
+  rw [C03_fn_secrets_new, genProvideDesc_eq (fun l => l) (fun _ => List.replicate 32 0) (by simp) _ _ _ (by simp)]
+  have : provideDesc (stepN (fun l => l) fun _ => List.replicate 32 0) [] N48 [List.replicate 32 7]
+      = some [(List.replicate 32 7, N48 - 1)] := by decide
+  rw [this]
+
+end Secrets
+
+/-! ### the state-dependent checks of `SimpleValidator::validate_counterparty_commitment_tx` (simple_validator.rs:721) and
+`validate_counterparty_revocation` (:910), generated: `Gen/FnSimpleState.lean`.  The two `EnforcementState` selectors
+are externals there; the theorems instantiate them with the generated selectors of `Gen/FnEnforce.lean`. -/
+section SimpleState
+open VlsModel.Gen.FnSimpleState (SimpleValidator)
+
+/-- `validate_counterparty_commitment_tx` = the head of the model's `signCp`: content rules, `commit_num ≤ revoke + 1`,
+    a retry must carry the signed point and the signed content -/
+theorem C03_fn_validate_counterparty_commitment_tx
+    (dO dR : Nat → Nat → Unit × Unit)
+    (vct : Gen.FnSimpleState.EnforcementState Nat Nat → Nat → Nat → Unit → Gen.FnSimpleState.ChainState → Nat → Rs.M Unit)
+    (gi : Gen.FnSimpleState.EnforcementState Nat Nat → Nat → Rs.M (Option Nat))
+    (c : Chan) (n pt info : Nat) (pk : Bool) (t0 : String)
+    (hv : vct (toSV c) n pt () ⟨⟩ info = contentRules pk t0)
+    (hgi : gi (toSV c) n = (toES c).get_previous_counterparty_commit_info n)
+    (hr : c.cpRevoke + 1 ≤ Rs.U64_MAX) (hn : n + 2 ≤ Rs.U64_MAX) :
+    cls (SimpleValidator.validate_counterparty_commitment_tx dO dR vct strict gi ⟨⟩ (toSV c) n pt () ⟨⟩ info)
+      = if !pk then .errPolicy
+        else if n > c.cpRevoke + 1 then .errPolicy
+        else if n + 1 = c.cpCommit ∧ c.curPt ≠ some pt then .errPolicy
+        else if n + 1 = c.cpCommit ∧ c.curInfo ≠ some info then .errPolicy
+        else .ok := by
+  have hsel := C03_fn_get_previous_counterparty_commit_info c n hn
+  rw [hsel] at hgi
+  obtain ⟨slot, next, cur, nextInfo, closed, m, r, curPt, prevPt, curInfo, prevInfo, secrets⟩ := c
+  have hn1 : n + 1 ≤ Rs.U64_MAX := by omega
+  unfold SimpleValidator.validate_counterparty_commitment_tx
+  rw [hv, hgi]
+  simp only [toSV, contentRules] at hr ⊢
+  cases pk
+  · simp
+  · simp only [if_true, Rs.bind_ok, Rs.uadd, hr, hn1, Rs.pure_eq, Bool.not_true, Bool.false_eq_true, if_false]
+    by_cases a : n > r + 1
+    · simp [a, policyErr_strict]
+    · by_cases b : n + 1 = m
+      · subst b
+        cases curPt with
+        | none => simp [a, policyErr_strict]
+        | some p =>
+          by_cases e : pt = p
+          · subst e
+            cases curInfo with
+            | none => simp [a, policyErr_strict]
+            | some i =>
+              by_cases g : info = i
+              · subst g; simp [a]
+              · have g' : ¬ i = info := fun h => g h.symm
+                simp [a, g, g', policyErr_strict]
+          · have e' : ¬ p = pt := fun h => e h.symm
+            simp [a, e, e', policyErr_strict]
+      · simp [a, b]
+
+/-- `validate_counterparty_revocation` = the head of the model's `revokeCp`: only the expected number or a retry, and the
+    point of the secret (`fsk`: secp, opaque) must be the point signed for that number -/
+theorem C03_fn_validate_counterparty_revocation
+    (fsk : Unit → Nat → Nat)
+    (gp : Gen.FnSimpleState.EnforcementState Nat Nat → Nat → Rs.M (Option Nat))
+    (c : Chan) (n sec : Nat)
+    (hgp : gp (toSV c) n = (toES c).get_previous_counterparty_point n)
+    (hn : n + 2 ≤ Rs.U64_MAX) :
+    cls (SimpleValidator.validate_counterparty_revocation () strict fsk gp ⟨⟩ (toSV c) n sec)
+      = if n ≠ c.cpRevoke ∧ n + 1 ≠ c.cpRevoke then .errPolicy
+        else if prevPoint c n ≠ some (fsk () sec) then .errPolicy
+        else .ok := by
+  rw [C03_fn_get_previous_counterparty_point c n hn] at hgp
+  have hn1 : n + 1 ≤ Rs.U64_MAX := by omega
+  unfold SimpleValidator.validate_counterparty_revocation
+  rw [hgp]
+  simp only [toSV, Rs.bind_ok, Rs.uadd, hn1, if_true, Rs.pure_eq]
+  by_cases a : n = c.cpRevoke
+  · cases hp : prevPoint c n with
+    | none => simp [a, policyErr_strict]
+    | some p =>
+      by_cases e : fsk () sec = p
+      · simp [a, e]
+      · have e' : ¬ p = fsk () sec := fun h => e h.symm
+        simp [a, e, e', policyErr_strict]
+  · by_cases b : n + 1 = c.cpRevoke
+    · cases hp : prevPoint c n with
+      | none => simp [a, b, policyErr_strict]
+      | some p =>
+        by_cases e : fsk () sec = p
+        · simp [a, b, e]
+        · have e' : ¬ p = fsk () sec := fun h => e h.symm
+          simp [a, b, e, e', policyErr_strict]
+    · simp [a, b, policyErr_strict]
+
+/-- **the whole `signCp` request** of the model is the composition of the two generated bodies that
+    `Channel::sign_counterparty_commitment_tx(_phase2)` calls in this order — `SimpleValidator::validate_counterparty_commitment_tx`
+    (state checks; content rules external) and `Validator::set_next_counterparty_commit_num` (window + setter): same reply
+    class on every input in the 64-bit range, on success the model's new state is the generated one, on refusal nothing
+    changes -/
+theorem C03_fn_signCp
+    (dO dR : Nat → Nat → Unit × Unit)
+    (vct : Gen.FnSimpleState.EnforcementState Nat Nat → Nat → Nat → Unit → Gen.FnSimpleState.ChainState → Nat → Rs.M Unit)
+    (gi : Gen.FnSimpleState.EnforcementState Nat Nat → Nat → Rs.M (Option Nat))
+    (c : Chan) (n pt info : Nat) (pk : Bool) (t0 : String)
+    (hv : vct (toSV c) n pt () ⟨⟩ info = contentRules pk t0)
+    (hgi : gi (toSV c) n = (toES c).get_previous_counterparty_commit_info n)
+    (hr : c.cpRevoke + 2 ≤ Rs.U64_MAX) (hc : c.cpCommit + 1 ≤ Rs.U64_MAX) (hn : n + 2 ≤ Rs.U64_MAX) :
+    (signCp c n pt info pk).out.res
+        = cls (SimpleValidator.validate_counterparty_commitment_tx dO dR vct strict gi ⟨⟩ (toSV c) n pt () ⟨⟩ info >>= fun _ =>
+                Validator.set_next_counterparty_commit_num strict () (toES c) (n + 1) pt info)
+    ∧ (∀ e, (SimpleValidator.validate_counterparty_commitment_tx dO dR vct strict gi ⟨⟩ (toSV c) n pt () ⟨⟩ info >>= fun _ =>
+                Validator.set_next_counterparty_commit_num strict () (toES c) (n + 1) pt info) = .ok e →
+          toES (signCp c n pt info pk).c = e)
+    ∧ ((signCp c n pt info pk).out.res ≠ .ok → (signCp c n pt info pk).c = c) := by
+  have hhead := C03_fn_validate_counterparty_commitment_tx dO dR vct gi c n pt info pk t0 hv hgi (by omega) hn
+  by_cases good : pk = true ∧ ¬ n > c.cpRevoke + 1 ∧ ¬ (n + 1 = c.cpCommit ∧ c.curPt ≠ some pt)
+      ∧ ¬ (n + 1 = c.cpCommit ∧ c.curInfo ≠ some info)
+  · obtain ⟨hpk, h0, h1, h2⟩ := good
+    subst hpk
+    simp only [Bool.not_true, Bool.false_eq_true, if_false, h0, h1, h2] at hhead
+    obtain ⟨u, hu⟩ := (cls_ok_iff _).mp hhead
+    rw [hu]
+    simp only [Rs.bind_ok]
+    exact C03_fn_signCp_tail c n pt info hr hc h0 h1 h2
+  · have hbad : cls (SimpleValidator.validate_counterparty_commitment_tx dO dR vct strict gi ⟨⟩ (toSV c) n pt () ⟨⟩ info)
+        = .errPolicy := by
+      rw [hhead]
+      cases pk
+      · simp
+      · by_cases a : n > c.cpRevoke + 1
+        · simp [a]
+        · by_cases b : n + 1 = c.cpCommit ∧ c.curPt ≠ some pt
+          · simp [a, b]
+          · by_cases d : n + 1 = c.cpCommit ∧ c.curInfo ≠ some info
+            · simp [a, b, d]
+            · exact absurd ⟨rfl, a, b, d⟩ good
+    have hcomp := cls_bind_errPolicy _ (fun _ => Validator.set_next_counterparty_commit_num strict () (toES c) (n + 1) pt info) hbad
+    have hs : signCp c n pt info pk = fail c .errPolicy := by
+      unfold signCp
+      cases pk
+      · simp
+      · by_cases a : n > c.cpRevoke + 1
+        · simp [a]
+        · by_cases b : n + 1 = c.cpCommit ∧ c.curPt ≠ some pt
+          · simp [a, b]
+          · by_cases d : n + 1 = c.cpCommit ∧ c.curInfo ≠ some info
+            · simp [a, b, d]
+            · exact absurd ⟨rfl, a, b, d⟩ good
+    refine ⟨by rw [hs, hcomp]; rfl, ?_, by rw [hs]; intro _; rfl⟩
+    intro e he
+    rw [he] at hcomp
+    simp [cls] at hcomp
+
+end SimpleState
 
 end VlsModel.Props.C03Fn
